@@ -665,7 +665,10 @@ class XsdComplexType(XsdType, ValidationMixin[Union[ElementType, str, bytes], An
             return isinstance(self.content, XsdSimpleType) and \
                 self.content.is_derived(other, derivation)
         elif self.has_simple_content():
+            # The content type is the *other* type: the derivation
+            # steps that matter are the ones of the base types chain.
             return isinstance(self.content, XsdSimpleType) and \
+                (derivation is None or self.content is not other) and \
                 self.content.is_derived(other, derivation) or \
                 self.base_type is not self and \
                 self.base_type.is_derived(other, derivation)
